@@ -262,7 +262,21 @@ func (w *response) bodyAllowed() bool {
 	if !w.wroteHeader {
 		panic("")
 	}
-	return w.status != bfe_http.StatusNotModified
+	return bodyAllowedForStatus(w.status)
+}
+
+// bodyAllowedForStatus reports whether a given response status code
+// permits a body.  See RFC2616, section 4.4.
+func bodyAllowedForStatus(status int) bool {
+	switch {
+	case status >= bfe_http.StatusContinue && status <= 199:
+		return false
+	case status == bfe_http.StatusNoContent:
+		return false
+	case status == bfe_http.StatusNotModified:
+		return false
+	}
+	return true
 }
 
 // The Life Of A Write is like this:
